@@ -29,6 +29,14 @@ class Prop(common.PropertyCheck):
                    'chform': rng.choice(['name', 'pos', 'list', 'all', 'list_mixed']), 'over': rng.choice([None, None, 'T', 'M', 'W', 'W0', 'Wbig', 'Tsmall', 'TM']),
                    'dt': rng.choice(['I', 'I', 'F']), 'tinyneg': rng.random() < 0.4, 'nan': rng.random() < 0.3, 'seed': rng.randrange(1 << 30)}
         yield {'res': 1024, 'units': 'raw', 'scale': 'cubic', 'n': None, 'chform': 'name', 'over': None, 'seed': 1}
+        # samples without events (everything gated out): range and resolution still define the bins
+        for i in range(self.budget(9, 60)):
+            yield {'res': rng.choice([256, 1024, 4096]), 'units': ['raw', 'rfi', 'mef'][i % 3], 'scale': ['logicle', 'linear', 'log'][(i // 3) % 3], 'n': [None, 17, 'res'][i % 3],
+                   'chform': ['name', 'list', 'all'][i % 3], 'over': None, 'dt': ['I', 'F'][i % 2], 'tinyneg': False, 'nan': False, 'seed': rng.randrange(1 << 30), 'empty': True}
+        # one per-channel list of bin counts (None = default) used for two queries on channels of different resolution
+        for i in range(self.budget(6, 40)):
+            yield {'res': rng.choice([256, 4096, 65536]), 'units': ['raw', 'rfi'][i % 2], 'scale': ['linear', 'logicle', 'log'][i % 3], 'n': 'reuse', 'chform': 'list', 'over': None,
+                   'dt': 'I', 'tinyneg': False, 'nan': False, 'seed': rng.randrange(1 << 30), 'nb_reuse': True}
         # explicit W = 0 (a falsy value) on floating-point samples with negative events, every channel form
         for chf in ('name', 'list', 'all'):
             yield {'res': rng.choice([1024, 4096]), 'units': 'raw', 'scale': 'logicle', 'n': rng.choice([None, 17]), 'chform': chf, 'over': 'W0', 'dt': 'F', 'tinyneg': False,
@@ -60,6 +68,8 @@ class Prop(common.PropertyCheck):
             d = FlowCal.transform.to_mef(d, [1], [(lambda x: np.sign(x) * math.exp(2.0) * np.abs(x) ** 1.05) if case['seed'] % 3 == 1 else
                                               (lambda x: 0.5 * np.sign(x) * np.abs(x) ** 1.5) if (case['seed'] % 3 == 2 or case['scale'] not in ('log', 'linear')) else
                                               (lambda x: math.exp(2.0) * np.abs(x) ** 1.05 * np.sign(x) - 35.0)], [1])
+        if case.get('empty'):
+            d = d[:0]
         return d
 
     def run_impl(self, case):
@@ -94,6 +104,14 @@ class Prop(common.PropertyCheck):
             sc = scale
         if case.get('badlist'):
             sc = list(case['badlist'])
+        nb_plain = None
+        if case.get('nb_reuse'):
+            nb = [None, 5]
+            nb_plain = [None, 5]
+            try:
+                d.hist_bins([names[2], names[0]], nb, sc)          # the caller's list, first used where position 0 is a channel of another resolution
+            except Exception:
+                pass
         out = {'cols': cols, 'scalar': scalar, 'ranges': [[float(x) for x in d.range(c)] for c in cols], 'resol': [int(d.resolution(c)) for c in cols]}
         try:
             e = d.hist_bins(ch, nb, sc, **kw)
@@ -103,7 +121,7 @@ class Prop(common.PropertyCheck):
         edges = [e] if scalar else list(e)
         out['edges'] = [[bits(v) for v in np.asarray(x, dtype=float)] for x in edges]
         out['range_after'] = [[float(x) for x in d.range(c)] for c in cols]
-        out['nb'] = [(nb[i] if isinstance(nb, list) else nb) for i in range(len(cols))]
+        out['nb'] = [(nb[i] if isinstance(nb, list) else nb) for i in range(len(cols))] if nb_plain is None else list(nb_plain)
         out['scales'] = [(sc[i] if isinstance(sc, list) else sc) for i in range(len(cols))]
         # per-channel answers on fresh objects
         per = []
